@@ -37,6 +37,7 @@ const unsigned short **__ctype_b_loc(void) { return &c19_ctype_ptr; }
 /* the description: a C string of arbitrary length g_dlen (object of g_dlen+1 bytes, NUL at
  * g_dlen; earlier NULs allowed); the output buffer: g_outlen bytes */
 unsigned long g_dlen; const char *g_desc; char *g_outbuf; int g_outlen;
+struct ev_spec *g_spec; int w_outlen;
 #define C19_MAX_DESC (1UL << 40)
 
 /* cursor invariant: in points into the description (at most at its last NUL), out/len
@@ -48,7 +49,7 @@ unsigned long g_dlen; const char *g_desc; char *g_outbuf; int g_outlen;
 /* (shape clauses with is_fresh are kept apart from the pure value predicates: a long
  * short-circuit chain in front of an is_fresh call makes symbolic execution explode) */
 #define PRINT_SHAPE(spec, ev) (__CPROVER_is_fresh(spec, sizeof(struct ev_spec)) && EMU_EV_WF(ev))
-#define PRINT_VALS(spec, ev) (SPEC_WF(spec) && (spec)->payload_size <= (ev)->payload_size && \
+#define PRINT_VALS(spec, ev) (SPEC_WF(spec) && (spec)->payload_size <= (ev)->payload_size && STRINGS_INSIDE(spec, (ev)->payload_size) && \
 	g_payload == (const uint8_t *) (ev)->payload && g_psize == (ev)->payload_size)
 
 /* ---------------- ev_spec_find_arg (bounded: names are 64-byte arrays) ---------------- */
@@ -78,25 +79,65 @@ void h_ev_spec_find_arg(void)
 	if (a == NULL && w_nargs == MAX_ARGS) REACH("argument not found among 16");
 }
 
+/* ---------------- print_arg: the only reader of the payload in the print path ---------------- */
+int g_k; int g_len0p; unsigned w_type; unsigned long w_off, w_spec_psize, w_ev_psize;
+WITNESS(print_arg);
+int c_print_arg(struct ev_arg *arg, const char *fmt, struct cursor *c, struct emu_ev *ev)
+__CPROVER_requires(PRINT_SHAPE(g_spec, ev))
+/* arg is one of the declared arguments of the definition; only ITS well-formedness is needed:
+ * it lies inside the declared payload, which the event's payload holds (check_payload) */
+__CPROVER_requires(g_k >= 0 && g_k < g_spec->nargs && g_spec->nargs <= MAX_ARGS && __CPROVER_pointer_equals(arg, &g_spec->args[g_k]))
+__CPROVER_requires(ARG_WF(g_spec, g_k) != 0 && STR_IN(g_spec, g_k, ev->payload_size) != 0 && g_spec->payload_size <= ev->payload_size)
+__CPROVER_requires(g_payload == (const uint8_t *) ev->payload && g_psize == ev->payload_size && DIAG_PRE && g_payload_reads == 0)
+__CPROVER_requires(__CPROVER_is_fresh(fmt, 64))
+__CPROVER_requires(g_outlen >= 1 && __CPROVER_is_fresh(g_outbuf, (size_t) g_outlen))
+__CPROVER_requires(__CPROVER_is_fresh(c, sizeof(*c)) && c->len >= 0 && c->len <= g_outlen - 1)
+__CPROVER_requires(__CPROVER_pointer_equals(c->out, g_outbuf + (g_outlen - 1 - c->len)))
+__CPROVER_requires(g_len0p == c->len)
+__CPROVER_requires(WBIND(print_arg, w_type == (unsigned) arg->type && w_off == arg->offset && w_spec_psize == g_spec->payload_size &&
+	w_ev_psize == ev->payload_size && w_outlen == g_outlen))
+__CPROVER_assigns(c->out, c->len, DIAG_FRAME, g_payload_reads, __CPROVER_object_whole(g_outbuf))
+__CPROVER_ensures(RET == 0 || RET == -1)
+/* the output cursor stays inside outbuf[0..outlen-1): room for the final NUL is kept */
+__CPROVER_ensures(RET != 0 || (c->len >= 0 && c->len <= g_len0p && c->out == g_outbuf + (g_outlen - 1 - c->len)))
+/* numeric arguments are read exactly once from the payload (range checked in the memcpy wrapper) */
+__CPROVER_ensures(RET != 0 || g_payload_reads == (arg->type == STR ? 0u : 1u))
+__CPROVER_ensures(RET == 0 || g_err > __CPROVER_old(g_err))
+;
+void h_print_arg(void)
+{
+	struct ev_arg *arg; const char *fmt; struct cursor *c; struct emu_ev *ev;
+	WITNESS_ON(print_arg);
+	int r = print_arg(arg, fmt, c, ev);
+	if (r == 0 && w_type == I64 && w_off + 8 == w_ev_psize) REACH("i64 argument ending exactly at the end of the payload printed");
+	if (r == 0 && w_type == U8) REACH("u8 argument printed");
+	if (r == 0 && w_type == STR) REACH("string argument printed");
+	if (r == 0 && w_outlen > 1000000) REACH("huge output buffer");
+	if (r != 0) REACH("no space refused");
+}
+
 /* ---------------- format_region ---------------- */
-const char *g_in0; int g_len0; unsigned long g_in_off;
+unsigned long g_in_off;
 WITNESS(format_region);
-int w_outlen; unsigned long w_dlen, w_psize;
-int c_format_region(struct ev_spec *spec, struct cursor *c, struct emu_ev *ev)
+unsigned long w_dlen, w_psize;
+/* self-contained (also used to replace the call in ev_spec_print) */
+int cr_format_region(struct ev_spec *spec, struct cursor *c, struct emu_ev *ev)
 __CPROVER_requires(PRINT_SHAPE(spec, ev))
-__CPROVER_requires(PRINT_VALS(spec, ev) && DIAG_PRE && g_payload_reads == 0)
+__CPROVER_requires(PRINT_VALS(spec, ev) && DIAG_PRE)
 __CPROVER_requires(g_dlen <= C19_MAX_DESC && __CPROVER_is_fresh(g_desc, g_dlen + 1) && g_desc[g_dlen] == 0)
 __CPROVER_requires(g_outlen >= 1 && __CPROVER_is_fresh(g_outbuf, (size_t) g_outlen))
 /* the cursor, written with pointer_equals so that in/out are known to point into the two buffers */
-__CPROVER_requires(__CPROVER_is_fresh(c, sizeof(*c)) && g_in_off <= g_dlen && c->len >= 0 && c->len <= g_outlen - 1)
-__CPROVER_requires(__CPROVER_pointer_equals(c->in, g_desc + g_in_off))
-__CPROVER_requires(__CPROVER_pointer_equals(c->out, g_outbuf + (g_outlen - 1 - c->len)))
-__CPROVER_requires(g_in0 == c->in && g_len0 == c->len)
+__CPROVER_requires(__CPROVER_is_fresh(c, sizeof(*c)) && c->len >= 1 && c->len <= g_outlen - 1)
+__CPROVER_requires(WBIND(format_region, g_in_off <= g_dlen && __CPROVER_pointer_equals(c->in, g_desc + g_in_off)))
+__CPROVER_requires(WBIND(format_region, __CPROVER_pointer_equals(c->out, g_outbuf + (g_outlen - 1 - c->len))))
+__CPROVER_requires(__CPROVER_same_object(c->in, g_desc) && c->in >= g_desc && c->in <= g_desc + g_dlen)
+__CPROVER_requires(c->out == g_outbuf + (g_outlen - 1 - c->len))
 __CPROVER_requires(WBIND(format_region, w_outlen == g_outlen && w_dlen == g_dlen && w_psize == g_psize))
 __CPROVER_assigns(*c, DIAG_FRAME, g_payload_reads, g_arg_k, __CPROVER_object_whole(g_outbuf))
 __CPROVER_ensures(RET == 0 || RET == -1)
 /* success: the input advanced (by at least "%%"), the cursor is still well-formed */
-__CPROVER_ensures(RET != 0 || (CURSOR_WF(c) && c->in >= g_in0 + 2 && c->len <= g_len0))
+__CPROVER_ensures(RET != 0 || (CURSOR_WF(c) && c->in >= __CPROVER_old(c->in) + 2 && c->len <= __CPROVER_old(c->len)))
+__CPROVER_ensures(RET != 0 || (g_err == __CPROVER_old(g_err) && g_warn == __CPROVER_old(g_warn) && g_diag == __CPROVER_old(g_diag)))
 __CPROVER_ensures(RET == 0 || g_err > __CPROVER_old(g_err))
 ;
 void h_format_region(void)
@@ -108,4 +149,32 @@ void h_format_region(void)
 	if (r == 0 && g_payload_reads == 0) REACH("literal percent or string argument");
 	if (r != 0) REACH("format refused");
 	if (r == 0 && w_dlen > 1000000) REACH("long description");
+}
+
+/* ---------------- ev_spec_print: loop contract in loops/c19_evspec.json ---------------- */
+WITNESS(ev_spec_print);
+int c_ev_spec_print(struct ev_spec *spec, struct emu_ev *ev, char *outbuf, int outlen)
+__CPROVER_requires(PRINT_SHAPE(spec, ev))
+__CPROVER_requires(PRINT_VALS(spec, ev) && DIAG_PRE && g_payload_reads == 0)
+__CPROVER_requires(g_dlen <= C19_MAX_DESC && __CPROVER_is_fresh(g_desc, g_dlen + 1) && g_desc[g_dlen] == 0)
+__CPROVER_requires(__CPROVER_pointer_equals(spec->description, g_desc))
+/* any outlen, also <= 0; the buffer has exactly outlen bytes */
+__CPROVER_requires(g_outlen == outlen && (outlen <= 0 || __CPROVER_is_fresh(g_outbuf, (size_t) outlen)))
+__CPROVER_requires(outlen <= 0 || __CPROVER_pointer_equals(outbuf, g_outbuf))
+__CPROVER_requires(WBIND(ev_spec_print, w_outlen == outlen && w_dlen == g_dlen && w_psize == g_psize))
+__CPROVER_assigns(DIAG_FRAME, g_payload_reads, g_arg_k)
+__CPROVER_assigns(outlen > 0: __CPROVER_object_whole(g_outbuf))
+__CPROVER_ensures(RET == 0 || RET == -1)
+__CPROVER_ensures(RET == 0 || g_err > __CPROVER_old(g_err))
+;
+void h_ev_spec_print(void)
+{
+	struct ev_spec *spec; struct emu_ev *ev; char *outbuf; int outlen;
+	WITNESS_ON(ev_spec_print); WITNESS_OFF(format_region);
+	int r = ev_spec_print(spec, ev, outbuf, outlen);
+	if (r == 0) REACH("event printed");
+	if (r == 0 && w_dlen > 1000000 && w_outlen > 1000000) REACH("long description printed");
+	if (r == 0 && g_payload_reads > 0) REACH("description with arguments printed");
+	if (r != 0 && w_outlen <= 0) REACH("no buffer refused");
+	if (r != 0 && w_outlen > 0 && w_dlen >= (unsigned long) w_outlen) REACH("description too long refused");
 }
